@@ -46,7 +46,7 @@ struct Options {
   unsigned maxDepth = 200000;
   unsigned maxAlts = 2048;
   unsigned maxEnum = 64;
-  uint64_t pathLimit = 30000000;   // instructions along one path before the path is reported as (probably) not terminating
+  uint64_t pathLimit = 100000000;  // instructions (outside the harness sources) along one path before the path is reported as (probably) not terminating
   bool verbose = false;
   bool checkNsw = true;
   bool noMerge = false;
@@ -82,6 +82,7 @@ struct FuncInfo {
   std::unique_ptr<DominatorTree> DT;
   DenseMap<const BasicBlock*, std::vector<unsigned>> liveAt; // regs defined in blocks dominating the key block
   std::vector<const BasicBlock*> defBlock;         // per reg index (nullptr for args)
+  bool countSteps = true;                          // false for code defined in the harness sources (oracles with long constant loops)
 };
 
 // every live State / Frame is linked into a global list: these are the roots of the garbage collector
@@ -512,6 +513,7 @@ static FuncInfo* getInfo(const Function* Fc) {
   auto it = finfo.find(Fc); if (it != finfo.end()) return it->second;
   Function* F = const_cast<Function*>(Fc);
   FuncInfo* fi = new FuncInfo(); fi->F = F;
+  if (auto* SP = F->getSubprogram()) { std::string fn = SP->getFilename().str(); if (fn.find("harness/") != std::string::npos || F->getName() == "harness") fi->countSteps = false; }
   for (auto& a : F->args()) { fi->index[&a] = fi->nvals++; fi->defBlock.push_back(nullptr); }
   for (auto& bb : *F) for (auto& I : bb) if (!I.getType()->isVoidTy()) { fi->index[&I] = fi->nvals++; fi->defBlock.push_back(&bb); }
   // blocks that can reach a return
